@@ -342,8 +342,26 @@ func (group *Group) delRtspPubSession(session *rtsp.PubSession) {
 func (group *Group) delPullSession(session base.IObject) {
 	Log.Debugf("[%s] [%s] del PullSession from group.", group.UniqueKey, session.UniqueKey())
 
+	// 注意，pull有可能没有成功加入group（比如连接失败，或者pull的过程中有其他输入流先加入了），
+	// 此时只需要清除正在pull的标志，不能影响group当前的输入流
+	if !group.isPullSessionAttached(session) {
+		Log.Warnf("[%s] del pull session but not match. del session=%s", group.UniqueKey, session.UniqueKey())
+		group.pullProxy.isSessionPulling = false
+		return
+	}
+
 	group.resetRelayPullSession()
 	group.delIn()
+}
+
+func (group *Group) isPullSessionAttached(session base.IObject) bool {
+	if group.pullProxy.rtmpSession != nil && base.IObject(group.pullProxy.rtmpSession) == session {
+		return true
+	}
+	if group.pullProxy.rtspSession != nil && base.IObject(group.pullProxy.rtspSession) == session {
+		return true
+	}
+	return false
 }
 
 // ---------------------------------------------------------------------------------------------------------------------
